@@ -25,6 +25,18 @@ func (i *syntaxChildMultiIdentifier) setNext(next syntaxNode) {
 	i.syntaxBasicNode.setNext(next)
 }
 
+// setAccessorMode also reaches the inner identifiers, which are the nodes
+// that append the results when nothing follows the multi-identifier.
+func (i *syntaxChildMultiIdentifier) setAccessorMode(mode bool) {
+	for _, identifier := range i.identifiers {
+		identifier.setAccessorMode(mode)
+	}
+	if i.isAllWildcard {
+		i.unionQualifier.setAccessorMode(mode)
+	}
+	i.syntaxBasicNode.setAccessorMode(mode)
+}
+
 func (i *syntaxChildMultiIdentifier) retrieve(
 	root, current interface{}, container *bufferContainer) errorRuntime {
 
